@@ -33,6 +33,9 @@ theorem D_resetPollerEvent (g : Cfg) (s : S) : D (resetPollerEvent g s) = D s :=
     · exact D_pModWrite _ _
   · rfl
 
+theorem D_ghost (s : S) (e y : Bool) : D (ghost s e y) = D s := rfl
+theorem E_ghost (s : S) (e y : Bool) : E (ghost s e y) = E s := rfl
+
 /-! ### queue helpers -/
 
 theorem enqueue_spec (g : Cfg) (s : S) (b : Bytes) (hp : AllPos s.wl) :
@@ -207,6 +210,21 @@ theorem InvD.of_D {g : Cfg} {s t : S} (h : D t = D s) (hi : InvD g s) : InvD g t
   · rw [h4]; exact hi.bound
   · rw [h2]; exact hi.nohang
 
+theorem invD_flip (g : Cfg) (s : S) (h : InvD g s) : InvD g (flip s) := by
+  constructor <;> simp [flip, h.pref, h.nohang]
+  · exact h.pos
+  · exact h.bound
+
+theorem invD_teardown (g : Cfg) (s : S) (h : InvD g s) (htp : s.tearPending = true → s.closed = true) :
+    InvD g (teardown s) := by
+  unfold teardown
+  split
+  · rename_i ht
+    have hc := htp ht
+    constructor <;> simp [hc, h.pref, h.nohang, allPos_nil]
+    exact h.bound
+  · exact h
+
 theorem invD_closeNow (g : Cfg) (s : S) (h : InvD g s) : InvD g (closeNow s) := by
   constructor <;> simp [closeNow, h.pref, h.nohang, allPos_nil]
   exact h.bound
@@ -297,9 +315,9 @@ theorem invD_finishCall (g : Cfg) (r : S × Ret) (hi : InvD g r.1) : InvD g (fin
   split
   · simp only
     split
-    · exact hi
+    · exact hi.of_D (s := r.1) rfl
     · exact hi.of_D (D_cModWrite g _)
-  · exact invD_closeNow g _ hi
+  · exact invD_flip g _ hi
 
 theorem invD_write (g : Cfg) (s : S) (b : Bytes) (k : KAns) (hi : InvD g s) : InvD g (write g s b k).1 := by
   unfold write
@@ -448,7 +466,7 @@ theorem invD_flushLoop (g : Cfg) : ∀ (fuel : Nat) (s : S) (ks : List KAns),
     intro s ks hi hc hf
     unfold flushLoop
     split
-    · exact hi.of_D (D_cResetRead g s)
+    · exact (hi.of_D (s := s) (t := stopTimer s) rfl).of_D (D_cResetRead g _)
     · -- head is a buffer
       rename_i d off tl hwl
       have hpos : off < d.length := hi.pos (Item.buf d off) (by rw [hwl]; simp)
@@ -602,6 +620,9 @@ theorem invD_registerDial (g : Cfg) (s : S) (hi : InvD g s) : InvD g (registerDi
   · exact hi
   · exact (InvD.of_D (s := s) (t := { s with isWAdded := true, connecting := true }) rfl hi).of_D (D_pAddReadWrite g _)
 
+theorem invD_flipWE (g : Cfg) (s : S) (h : InvD g s) : InvD g (flipWE s) :=
+  invD_flip g _ (h.of_D (s := s) (t := stopTimer s) rfl)
+
 /-- updates of poller/kernel-side fields keep the data invariant -/
 theorem InvD.same {g : Cfg} {s t : S} (hi : InvD g s) (h1 : t.closed = s.closed) (h2 : t.hung = s.hung)
     (h3 : t.wl = s.wl) (h4 : t.left = s.left) (h5 : t.wire = s.wire) (h6 : t.accepted = s.accepted) : InvD g t :=
@@ -645,29 +666,49 @@ theorem invD_evEnd (g : Cfg) (s : S) (hi : InvD g s) : InvD g (evEnd g s) := by
     split
     · split
       · exact h1.same rfl rfl rfl rfl rfl rfl
-      · exact invD_closeNow g _ (h1.same rfl rfl rfl rfl rfl rfl)
+      · exact invD_flipWE g _ (h1.same rfl rfl rfl rfl rfl rfl)
     · exact h1
 
-theorem invD_close (g : Cfg) (s : S) (hi : InvD g s) : InvD g (close s) := by
-  unfold close
+theorem invD_flipClosed (g : Cfg) (s : S) (hi : InvD g s) : InvD g (flipClosed s) := by
+  unfold flipClosed
   split
   · exact hi
-  · exact invD_closeNow g s hi
+  · exact invD_flipWE g s hi
 
-theorem invD_step (g : Cfg) (s : S) (op : Op) (hi : InvD g s) : InvD g (step g s op) := by
+theorem invD_setWriteDeadline (g : Cfg) (s : S) (z : Bool) (hi : InvD g s) : InvD g (setWriteDeadline s z) := by
+  unfold setWriteDeadline
+  split
+  · exact hi
+  · exact hi.same rfl rfl rfl rfl rfl rfl
+
+theorem invD_timerExpire (g : Cfg) (s : S) (hi : InvD g s) : InvD g (timerExpire s) := by
+  unfold timerExpire
+  split
+  · exact hi.same rfl rfl rfl rfl rfl rfl
+  · exact hi
+
+theorem invD_timerFire (g : Cfg) (s : S) (hi : InvD g s) : InvD g (timerFire s) := by
+  unfold timerFire
+  split
+  · exact hi
+  · split
+    · exact hi.same rfl rfl rfl rfl rfl rfl
+    · exact invD_flipWE g _ (hi.same rfl rfl rfl rfl rfl rfl)
+
+theorem invD_step (g : Cfg) (s : S) (op : Op) (hi : InvD g s) (htp : s.tearPending = true → s.closed = true) :
+    InvD g (step g s op) := by
   cases op with
-  | write b k => exact invD_write g s b k hi
-  | writev bs k => exact invD_writev g s bs k hi
-  | sendfile off len ks => exact invD_sendfile g s off len ks hi
-  | register => exact invD_register g s hi
-  | registerDial => exact invD_registerDial g s hi
-  | evTake o i e ks => exact invD_evTake g s o i e ks hi
+  | write b ks => exact (invD_write g s b _ hi).of_D (D_ghost _ _ _)
+  | writev bs ks => exact (invD_writev g s bs _ hi).of_D (D_ghost _ _ _)
+  | sendfile off len ks => exact (invD_sendfile g s off len ks hi).of_D (D_ghost _ _ _)
+  | register => exact (invD_register g s hi).of_D (D_ghost _ _ _)
+  | registerDial => exact (invD_registerDial g s hi).of_D (D_ghost _ _ _)
+  | evTake o i e ks => exact (invD_evTake g s _ i e ks hi).of_D (D_ghost _ _ _)
   | evEnd => exact invD_evEnd g s hi
-  | close => exact invD_close g s hi
-
-theorem invD_run (g : Cfg) (ops : List Op) : ∀ (s : S), InvD g s → InvD g (run g s ops) := by
-  induction ops with
-  | nil => intro s h; exact h
-  | cons op ops ih => intro s h; exact ih _ (invD_step g s op h)
+  | flipClosed => exact invD_flipClosed g s hi
+  | teardown => exact invD_teardown g s hi htp
+  | setWriteDeadline z => exact invD_setWriteDeadline g s z hi
+  | timerExpire => exact invD_timerExpire g s hi
+  | timerFire => exact invD_timerFire g s hi
 
 end ConnFull
